@@ -38,8 +38,10 @@ TOL_ANALYTIC = 1e-7  # closed-form cantilever (round-off floor of the SEG5 Hermi
 # ------------------------------------------------------------------------------------------------
 # reference rigid motions (numpy only)
 # ------------------------------------------------------------------------------------------------
-MOTIONS_2D = ["translation", "rot90", "rot180", "rot_generic", "reflection", "rotrefl"]
-MOTIONS_3D = ["translation", "rot90", "rot90x", "rot_generic", "axis_angle", "reflection", "rotrefl"]
+# "rot180_origin" / "mirror_x_origin": motions that map the coordinate axes onto themselves REVERSED (a member lying on the x axis stays on
+# the x axis and points towards -x: the mesh keeps its embedding dimension, which the library keys on)
+MOTIONS_2D = ["translation", "rot90", "rot180", "rot_generic", "reflection", "rotrefl", "rot180_origin", "mirror_x_origin"]
+MOTIONS_3D = ["translation", "rot90", "rot90x", "rot_generic", "axis_angle", "reflection", "rotrefl", "rot180_origin", "mirror_x_origin"]
 
 
 def _unit(v):
@@ -82,6 +84,10 @@ def motion_ops(name: str, sdim: int) -> list[dict]:
         return [{"op": "rotate", "deg": 90.0, "center": cen(), "axis": z}]
     if name == "rot180":
         return [{"op": "rotate", "deg": 180.0, "center": cen(), "axis": z}]
+    if name == "rot180_origin":
+        return [{"op": "rotate", "deg": 180.0, "center": np.zeros(3), "axis": z}]
+    if name == "mirror_x_origin":
+        return [{"op": "symmetry", "point": np.zeros(3), "n": np.array([1.0, 0.0, 0.0])}]
     if name == "rot90x":
         return [{"op": "rotate", "deg": 90.0, "center": cen(), "axis": np.array([1.0, 0.0, 0.0])}]
     if name == "rot_generic":
@@ -236,7 +242,7 @@ def cases(tier, seed):
     # ---- beams -------------------------------------------------------------------------------
     for dim, motions in ((2, MOTIONS_2D), (3, MOTIONS_3D)):
         # "linecouple": a line load with force AND distributed couple components (the couple is an axial vector)
-        for theory, et, structure, load, T in itertools.product(BEAM_THEORIES, Z.TYPES_1D, ["cantilever", "frame"], ["tip", "line", "linecouple"], motions):
+        for theory, et, structure, load, T in itertools.product(BEAM_THEORIES, Z.TYPES_1D, ["cantilever", "frame", "cantilever_onaxis"], ["tip", "line", "linecouple"], motions):
             out.append({"kind": "beam", "dim": dim, "theory": theory, "elemType": et, "structure": structure, "load": load, "T": T})
         # the cantilever starting from an orientation that is not the x axis (closed form decides the ORIGINAL run too)
         starts = ["cantilever_gen"] if tier == "quick" else ["cantilever_gen", "cantilever_y"]
@@ -683,6 +689,10 @@ def _members(structure: str, dim: int):
     z = np.array([0.0, 0.0, 1.0])
     if structure == "cantilever":
         p0 = np.array([0.2, 0.1, 0.0 if dim == 2 else -0.15])
+        return [(p0, p0 + np.array([1.2, 0.0, 0.0]), np.array([0.0, 1.0, 0.0]))]
+    if structure == "cantilever_onaxis":
+        # the member lies ON the x axis (the mesh of a single such member is embedded in one dimension)
+        p0 = np.array([0.2, 0.0, 0.0])
         return [(p0, p0 + np.array([1.2, 0.0, 0.0]), np.array([0.0, 1.0, 0.0]))]
     if structure == "cantilever_y":
         p0 = np.array([0.2, 0.1, 0.0 if dim == 2 else -0.15])
